@@ -145,6 +145,10 @@ func (rr *DefaultRelationsResolver) TargetStates(
 	resolvedS = slicesFilter(rr.parseAdd(resolvedS), func(name string,
 		_ int,
 	) bool {
+		// don't bring back states blocked above
+		if _, ok := alreadyBlocked[name]; ok {
+			return false
+		}
 		return !slices.Contains(toRemove, name)
 	})
 	resolvedS = slicesUniq(resolvedS)
@@ -244,43 +248,40 @@ func (rr *DefaultRelationsResolver) parseAdd(states S) S {
 	t := rr.Transition
 	ret := states
 	visited := S{}
-	changed := true
-	for changed {
-		changed = false
-		for _, name := range states {
-			state := rr.Machine.schema[name]
+	// walk the growing list, so Add relations of implied states are followed
+	for i := 0; i < len(ret); i++ {
+		name := ret[i]
+		state := rr.Machine.schema[name]
 
-			if slices.Contains(rr.statesBefore, name) && !state.Multi {
-				continue
-			}
-			if slices.Contains(visited, name) {
-				continue
-			}
-
-			// filter the Add relation from states called for removal
-			var addStates S
-			for _, add := range state.Add {
-				idxAdd := slices.Index(rr.Index, add)
-				if t.Type() == MutationRemove &&
-					slices.Contains(t.Mutation.Called, idxAdd) {
-
-					continue
-				}
-				addStates = append(addStates, add)
-			}
-			if addStates == nil {
-				continue
-			}
-
-			if rr.Machine.semLogger.IsSteps() {
-				t.addSteps(newSteps(name, addStates, StepRelation,
-					RelationAdd)...)
-				t.addSteps(newSteps("", addStates, StepSet, 0)...)
-			}
-			ret = append(ret, addStates...)
-			visited = append(visited, name)
-			changed = true
+		if slices.Contains(rr.statesBefore, name) && !state.Multi {
+			continue
 		}
+		if slices.Contains(visited, name) {
+			continue
+		}
+
+		// filter the Add relation from states called for removal
+		var addStates S
+		for _, add := range state.Add {
+			idxAdd := slices.Index(rr.Index, add)
+			if t.Type() == MutationRemove &&
+				slices.Contains(t.Mutation.Called, idxAdd) {
+
+				continue
+			}
+			addStates = append(addStates, add)
+		}
+		if addStates == nil {
+			continue
+		}
+
+		if rr.Machine.semLogger.IsSteps() {
+			t.addSteps(newSteps(name, addStates, StepRelation,
+				RelationAdd)...)
+			t.addSteps(newSteps("", addStates, StepSet, 0)...)
+		}
+		ret = append(ret, addStates...)
+		visited = append(visited, name)
 	}
 
 	return ret
